@@ -95,6 +95,13 @@ def label_cases(mnemonics, rng):
                        {"mn": mn, "form": fid, "value": base, "spelling": "label-before", "kind": "label", "stmt": len(pre) + 1, "org": org})
                 yield (pre + [" %s %s\n" % (mn, tmpl.format(v="L")), "L NOP\n"],
                        {"mn": mn, "form": fid, "value": None, "spelling": "label-after", "kind": "label", "stmt": len(pre), "org": org})
+        # label arithmetic behind an explicit < or >: the direct page offset is an UNSIGNED byte (a result below 0 or above
+        # 255 is rejected), the extended address a 16-bit word
+        for org, k in ((0x10, -0x20), (0x10, 5), (0x00, -1), (0x40, -0x41), (0x80, 0x7F), (0x80, 0x80), (0x0E00, -0x0DFF), (0x0E00, -0x0E01)):
+            e = "L+%d" % k if k >= 0 else "L-%d" % -k
+            for fid, tm in (("dir", "<%s"), ("ext", ">%s")):
+                yield ([" ORG $%04X\n" % org, "L NOP\n", " %s %s\n" % (mn, tm % e)],
+                       {"mn": mn, "form": fid, "value": org + k, "spelling": "label-expr", "kind": "label", "stmt": 2, "org": org})
 
 
 def special_cases(rng, full=False):
@@ -461,6 +468,19 @@ def expr_cases(rng, tier):
                         k = len(lines) - 1
                     yield (lines, {"kind": "expr", "pos": "pcr", "terms": terms, "op": op, "stmt": k, "etxt": etxt, "label_addr": label_addr,
                                    "has_label": True, "kinds": ("pcr-sum", form), "may_reject": False})
+    # a term that is an EQU symbol defined by label arithmetic (X EQU L+2): it stands for its value (false upstream: 0, F56)
+    for pos, tmpl in [p for p in positions if p[0] in ("imm16", "ext", "extind", "idx", "pcr", "equ", "fdb")]:
+        for org in ([0x1000, 0x0020] if q else [0x1000, 0x0020, 0x0E00, 0x7000, 0x9000]):
+            for k in ([2, -1] if q else [0, 2, -1, 100, -300]):
+                for form in ("l+x", "x+l", "x-l", "l-x"):
+                    pre = [" ORG $%04X\n" % org, "B0 NOP\n", " RMB 7\n", "B1 NOP\n", "V1 EQU B0%s%d\n" % ("+" if k >= 0 else "-", abs(k))]
+                    lt, xt = ("label", "B1"), ("equl", "V1", "B0", k)
+                    terms = [lt, xt] if form[0] == "l" else [xt, lt]
+                    etxt = ("B1" if form[0] == "l" else "V1") + form[1] + ("V1" if form[0] == "l" else "B1")
+                    body = tmpl % etxt
+                    line = (body if pos == "equ" else " " + body) + "\n"
+                    yield (pre + [line], {"kind": "expr", "pos": pos, "terms": terms, "op": form[1], "stmt": len(pre), "etxt": etxt,
+                                          "label_addr": {"B0": org, "B1": org + 8}, "has_label": True, "kinds": ("equl", form), "may_reject": True})
     # order independence: the same EQU symbol defined before and after its use
     for _ in range(40 if q else 600):
         v = rng.choice(nums)
@@ -565,6 +585,17 @@ def stress_cases(rng, tier):
             # the model's alphabet is 7-bit ASCII (Python's \w also takes accented letters): anything beyond it is judged
             # on the implementation alone - result or diagnostic, never an uncaught exception
             yield ([ln, " NOP\n"], {"kind": "edge", "impl_only": any(ord(c) > 127 for c in ln)})
+    # EQU symbols defined through each other in a circle: a diagnostic, never a hang or a crash
+    for prog in [["A1 EQU A1\n"], ["A1 EQU B1\n", "B1 EQU A1\n"], ["A1 EQU B1\n", "B1 EQU C1\n", "C1 EQU A1\n"],
+                 ["V1 EQU V2\n", "V2 EQU V3\n", "V3 EQU V2\n"], ["A1 EQU B1+1\n", "B1 EQU A1+1\n"], ["A1 EQU B1\n", "B1 EQU A1+1\n"],
+                 ["A1 EQU A1+1\n"], ["A1 EQU B1\n", "B1 EQU C1\n", "C1 EQU 5\n"], ["A1 EQU B1\n", "B1 EQU NOSUCH\n"]]:
+        for tail in ([], [" LDA #A1\n"], [" NOP\n", " LDX A1\n"]):
+            yield (prog + tail, {"kind": "edge"})
+            yield ([" ORG $1000\n", "L0 NOP\n"] + prog + tail, {"kind": "edge"})
+    # numbers of absurd length (Python refuses to convert more than 4300 decimal digits: false upstream, repair F55)
+    for body in ["9" * 4301, "0" * 4400 + "5", "1" * 5000, "0" * 6000]:
+        for sh in [" LDA %s\n", " LDA #-%s\n", " FCB 1,%s\n", " FDB %s\n", " RMB %s\n", "V EQU %s\n", " LDA $%s\n", " LDA %%%s\n", " LDX %s,X\n"]:
+            yield ([sh % body, " NOP\n"], {"kind": "edge"})
     alphabet = " \tABXYZLDNOPRMB019#$%<>[],+-;'\"*/@._\n"
     for _ in range(1500 if q else 30000):
         p = ["".join(rng.choice(alphabet[:-1]) for _ in range(rng.randrange(0, 16))) + "\n" for _ in range(rng.choice([1, 2, 3]))]
